@@ -88,6 +88,10 @@ theorem stdSort_sorted {α : Type} (lt : α → α → Bool) (h : AdaptaVerif.Le
     (stdSort lt l).Pairwise (fun a b => lt b a = false) :=
   AdaptaVerif.Lemmas.Planarise.stdSort_sorted lt h l
 
+-- non-vacuity of stdSort_sorted: strict weak orders exist (`<` on Nat)
+example : AdaptaVerif.Lemmas.SWO.IsSWO (fun a b : Nat => decide (a < b)) :=
+  ⟨by simp, by simp; omega, by simp; omega⟩
+
 /-! ### (2) original nodes are kept -/
 
 /-- Every original node (same id, same centre) is a node of the planar graph, for every input. -/
@@ -163,6 +167,11 @@ def gridSegs : List Seg :=
    mkSeg ⟨6, ⟨10, -5⟩⟩ ⟨7, ⟨10, 25⟩⟩, mkSeg ⟨8, ⟨20, -5⟩⟩ ⟨9, ⟨20, 25⟩⟩]
 example : Good gridSegs := goodB_sound _ (by decide +kernel)
 example : ((computeCrossings gridSegs 10).cross.map (·.p)).length = 6 := by decide +kernel
+-- non-vacuity of crossings_iff_proper: the grid also satisfies the no-T-touch hypothesis `hT` (jointly with `Good`), and
+-- the equivalence is not between two empty sides: (10, 0) is a reported point
+example : ∀ h ∈ gridSegs, ∀ v ∈ gridSegs, h.ori = .H → v.ori = .V → ¬ (h.hi = v.cc ∧ v.lo < h.cc ∧ h.cc < v.hi) := by
+  decide +kernel
+example : (⟨10, 0⟩ : Pt) ∈ (computeCrossings gridSegs 10).cross.map (·.p) := by decide +kernel
 
 
 /-! ### (4) connections survive the cuts
@@ -179,6 +188,14 @@ theorem cut_preserves_connections (segs : List Seg) (a1 a2 : Nat) (t1 t2 : Seg) 
     Reach (((segs.set a1 (t1.setNewClosing cr)).set a2 (t2.setNewClosing cr)) ++ [mkSeg cr t1.cn] ++ [mkSeg cr t2.cn])
       (cr :: new) a b :=
   reach_reroute (fun _ _ hj => joined_cross h1 h2 hne rfl rfl hj) h
+
+-- non-vacuity of cut_preserves_connections: the hypotheses hold jointly on the grid (cut of horizontal 0 and vertical 3,
+-- the connection 0–1 of the horizontal)
+example : gridSegs[0]? = some (mkSeg ⟨0, ⟨0, 0⟩⟩ ⟨1, ⟨30, 0⟩⟩) ∧ gridSegs[3]? = some (mkSeg ⟨6, ⟨10, -5⟩⟩ ⟨7, ⟨10, 25⟩⟩) ∧
+    (0 : Nat) ≠ 3 ∧ Reach gridSegs [] ⟨0, ⟨0, 0⟩⟩ ⟨1, ⟨30, 0⟩⟩ := by
+  refine ⟨by decide +kernel, by decide +kernel, by decide,
+    Reach.edge ⟨mkSeg ⟨0, ⟨0, 0⟩⟩ ⟨1, ⟨30, 0⟩⟩, by decide +kernel, ?_⟩⟩
+  left; constructor <;> decide +kernel
 
 /-- **Connections, crossing-removal stage, all segment lists.**  After `computeCrossings` every segment of the input
 (= every edge of the overlap-free graph) is still connected end to end by a chain of final segments whose intermediate
